@@ -109,7 +109,7 @@ func runChildOnce(bin string, spec proto.Spec, timeout time.Duration) (ends []pr
 			cmd = exec.CommandContext(ctx, ts, "-c", fmt.Sprint(cpu), bin, "-test.run", "^TestChild$", "-test.timeout", "0")
 		}
 	}
-	cmd.Env = append(os.Environ(), "VERIF_SPEC="+string(sj), "GORACE=halt_on_error=1 exitcode=66", "GOMAXPROCS="+childGOMAXPROCS(spec))
+	cmd.Env = append(os.Environ(), "VERIF_SPEC="+string(sj), "GORACE=halt_on_error=1 exitcode=66 history_size=7", "GOMAXPROCS="+childGOMAXPROCS(spec))
 	var stderr tailBuffer
 	cmd.Stderr = &stderr
 	stdout, err := cmd.StdoutPipe()
